@@ -608,7 +608,10 @@ impl PathIssueManager {
         // Broadcast issue
         self.issue_broadcast_tx.send((id, marker.clone())).ok();
 
-        if self.cache.len() >= self.max_entries {
+        // Make room for the new entry. The queue can hold stale entries of issues that were
+        // refreshed in the meantime, popping such an entry frees no cache entry. Bounding the
+        // queue bounds the cache too, as every cached issue has a (current) queue entry.
+        while self.fifo_issues.len() >= self.max_entries && !self.fifo_issues.is_empty() {
             self.pop_front();
         }
 
